@@ -62,7 +62,15 @@ VARIANTS = {
         },
         bin="x86_64-unknown-linux-gnu/debug/verif-shim",
     ),
+    # the UB / leak interpreter: no binary of its own, the worker is `cargo miri run` of the same shim (interactive protocol
+    # over stdin works with isolation disabled); the build step interprets an empty script so that everything is compiled once
+    "miri": dict(
+        cmd=["cargo", "+nightly", "miri", "run", "--offline", "-q", "--", "--script", "/dev/null"],
+        env={"RUSTFLAGS": "--cfg physis_verif", "MIRIFLAGS": "-Zmiri-disable-isolation", "VERIF_NO_WARM": "1"},
+        bin=None,
+    ),
 }
+MIRI_WATCHDOG_S = 900.0
 
 
 def build(variant, quiet=True):
@@ -83,6 +91,8 @@ def build(variant, quiet=True):
     finally:
         fcntl.flock(lock, fcntl.LOCK_UN)
         lock.close()
+    if v["bin"] is None:
+        return ["cargo", "+nightly", "miri", "run", "--offline", "-q", "--manifest-path", os.path.join(SHIM, "Cargo.toml"), "--"]
     return os.path.join(tdir, v["bin"])
 
 
@@ -133,7 +143,7 @@ class Worker:
         self.seq = 0
         self.generation = 0
         self.extra_env = extra_env or {}
-        self.rlimit_as = rlimit_as and variant != "asan"
+        self.rlimit_as = rlimit_as and variant not in ("asan", "miri")
         self.errpath = os.path.join(scratch, "worker-%s-%d.stderr" % (variant, os.getpid()))
         self.commands = 0
         self.restarts = 0
@@ -157,15 +167,17 @@ class Worker:
             )
             env["LSAN_OPTIONS"] = "report_objects=1"
             env["ASAN_SYMBOLIZER_PATH"] = shutil.which("llvm-symbolizer-14") or shutil.which("llvm-symbolizer") or ""
+        if self.variant == "miri":
+            env.update(_cargo_env(dict(VARIANTS["miri"]["env"], CARGO_TARGET_DIR=os.path.join(BUILD, "miri"))))
         env.update(self.extra_env)
         self.errf = open(self.errpath, "wb")
         self.proc = subprocess.Popen(
-            [self.binary], stdin=subprocess.PIPE, stdout=subprocess.PIPE, stderr=self.errf, env=env,
+            self.binary if isinstance(self.binary, list) else [self.binary], stdin=subprocess.PIPE, stdout=subprocess.PIPE, stderr=self.errf, env=env,
             preexec_fn=self._preexec, bufsize=0,
         )
         self.buf = b""
         self.generation += 1
-        line = self._readline(60)
+        line = self._readline(60 if self.variant != "miri" else 600)
         if line is None or b"ready" not in line:
             raise RuntimeError("worker did not start: %r %s" % (line, self.stderr_tail()))
 
@@ -241,7 +253,7 @@ class Worker:
             pass
         oversize = []
         while True:
-            l = self._readline(timeout or WATCHDOG_S)
+            l = self._readline((timeout or WATCHDOG_S) if self.variant != "miri" else max(timeout or 0, MIRI_WATCHDOG_S))
             if l is None:
                 # watchdog: inconclusive
                 self.proc.kill()
@@ -287,6 +299,12 @@ class Worker:
 
 
 def classify_death(rc, tail):
+    if "error: Undefined Behavior" in tail:
+        return "miri(undefined-behavior)"
+    if "error: unsupported operation" in tail:
+        return "miri(unsupported)"
+    if "error: memory leaked" in tail:
+        return "miri(leak)"
     if "memory allocation of" in tail and "failed" in tail:
         return "alloc"
     if "hard rss limit exhausted" in tail or "failed to allocate" in tail and "ERROR: AddressSanitizer" not in tail:
@@ -383,6 +401,11 @@ def monitor_verdicts(rec, input_bytes, residual=True, entry=None):
         f, text, mc = panic_site(rec)
         out.append(dict(kind="panic", sig=dict(kind="panic", entry=entry, file=f, line_text=text, msg=mc),
                         detail=dict(panic=rec.get("panic"))))
+    elif oc == "abort:miri(unsupported)":
+        # the interpreter cannot execute something (a foreign function, an unsupported syscall): no verdict
+        m = re.search(r"error: unsupported operation: [^\n]*", rec.get("stderr", ""))
+        out.append(dict(inconclusive="miri: %s" % (m.group(0)[:160] if m else "unsupported operation"), entry=entry))
+        return out
     elif oc.startswith("abort:"):
         what = oc[6:]
         site = ""
@@ -394,6 +417,8 @@ def monitor_verdicts(rec, input_bytes, residual=True, entry=None):
                 text = source_line(fr[0]["file"], fr[0]["line"])
         if what.startswith("sanitizer"):
             site, text = sanitizer_site(rec.get("stderr", ""))
+        if what.startswith("miri"):
+            site, text = miri_site(rec.get("stderr", ""))
         out.append(dict(kind="abort", sig=dict(kind="abort", entry=entry, what=what, file=site, line_text=text),
                         detail=dict(stderr=rec.get("stderr", "")[-3000:], oversize=rec.get("oversize"))))
         return out
@@ -422,6 +447,17 @@ def monitor_verdicts(rec, input_bytes, residual=True, entry=None):
                                 detail=dict(residual_bytes=d)))
 
     return out
+
+
+def miri_site(stderr):
+    """first frame of a Miri report that lies in the tree under test"""
+    for m in re.finditer(r"(?:-->|at|inside `[^`]*` at) (\S+?):(\d+):\d+", stderr):
+        path, line = m.group(1), int(m.group(2))
+        if path.startswith(REPO + "/"):
+            path = path[len(REPO) + 1:]
+        if path.startswith("src/") and os.path.exists(os.path.join(REPO, path)):
+            return path, source_line(path, line)
+    return "", ""
 
 
 def sanitizer_site(stderr):
@@ -629,6 +665,13 @@ class ShardCtx:
             rc, tail = self._w.close()
             self.stats.monitor["worker_restarts"] += self._w.restarts
             self.stats.monitor["commands"] += self._w.commands
+            if self.variant == "miri":
+                self.stats.monitor["miri_processes"] += 1
+                if "error: memory leaked" in tail or "error: Undefined Behavior" in tail:
+                    site, text = miri_site(tail)
+                    self.violation("sanitizer", dict(kind="sanitizer", entry="exit", what=classify_death(rc, tail), file=site, line_text=text), dict(stderr=tail[-3000:]))
+                elif rc not in (0, None) and "error: unsupported operation" in tail:
+                    self.inconclusive("miri: unsupported operation at exit")
             if self.variant == "asan" and ("ERROR: LeakSanitizer" in tail or "ERROR: AddressSanitizer" in tail):
                 site, text = sanitizer_site(tail)
                 self.violation("sanitizer", dict(kind="sanitizer", entry="exit", what=classify_death(rc, tail), file=site, line_text=text),
@@ -715,7 +758,14 @@ def run_property(modname, prop, tier, seed, plan):
     total = Stats()
     jobs = []
     for variant, nshards, params in plan:
-        build(variant, quiet=False)
+        try:
+            build(variant, quiet=False)
+        except BuildError as e:
+            if variant == "debug":
+                raise
+            # an auxiliary build (sanitizer, interpreter) that cannot be produced gives no verdict for its stage
+            total.inconclusive["stage skipped, variant %s could not be built: %s" % (variant, str(e)[-300:].replace("\n", " | "))] += 1
+            continue
         for i in range(nshards):
             jobs.append((modname, prop, tier, seed, i, nshards, variant, params))
     if len(jobs) == 1:
